@@ -248,6 +248,73 @@ def evaluate(ctx, r, cfg, nodes, notices, pings, tabchange, meta, hooks=None):
     ctx.count('notices', len(notices))
     ctx.cov['max_tree_depth'] = max(ctx.cov.get('max_tree_depth', 0), depth)
 
+def gen_directed(ctx, k):
+    """a command for a board whose loss / login the receiver is handling right now (receiver parked at its p-th scheduling point): once the
+    notice has been ACKNOWLEDGED on the wire, no command may go to the address of the board that was lost, and a command for the board that
+    logged on must be accepted"""
+    from .. import sweep
+    rng = ctx.sub_rng('c15d', k)
+    cfg = cfggen.gen_config(rng, nboards=rng.randrange(2, 4), rich=False, with_initial=False, max_trains=1)
+    for b in cfg['boards'][1:]:
+        b['uid'] = bytes([b['uid'][0] & 0x7F]) + b['uid'][1:]          # leaves
+    d = cfggen.write_config(cfg, cfg_dir(f'c15d_{k}'))
+    nodes = cfggen.assign_tree(rng, cfg, absent_prob=0.0, unknown=0, depth3=False)
+    m = statemodel.Model(cfg, nodes)
+    sc = Scn(seed=ctx.seed * 89 + k, watchdog=300000)
+    sc.add(*cfggen.bus_lines(cfg, nodes), 'bus brackets 1', f'start {d} 0', 'quiesce')
+    cand = [b for b in cfg['boards'] if m.connected(b['id']) and m.addr[b['id']] != (0, 0, 0) and m.addr[b['id']][1] == 0 and not cfggen.is_interface(b)]
+    cases = []
+    if not cand:
+        sc.add('stop')
+        return sc.text(), cases
+    B = rng.choice(cand)
+    a = m.addr[B['id']]
+    version = 2
+    fn = bool(k % 2)
+    for p_ in (range(1, 25) if not fn else range(1, 60, 2)):
+        for t, code in ((C('MSG_NODE_LOST'), 'lost'), (C('MSG_NODE_NEW'), 'new')):
+            data = bytes([version, a[0]]) + B['uid']
+            idx = len(cases)
+            if code == 'lost':
+                sc.add(f'bus delnode {a[0]}.0.0')
+            else:
+                sc.add(f'bus node {a[0]}.0.0 {B["uid"].hex()}')
+            sweep.add_receiver_case(sc, idx, [up(model.build_msg((0, 0, 0), 0, t, data))], [call('bidib_ping', S_(B['id']), 0x5A)], p_, fn, after=('release', 'quiesce', 'flush', 'quiesce'))
+            cases.append((code, tuple(a), version))
+            version = (version % 255) + 1
+    sc.add(f'mark c{len(cases)}', 'stop')
+    return sc.text(), cases
+
+def eval_directed(ctx, r, cases, meta):
+    from .. import sweep
+    if ctx.generic_failures(r, meta):
+        return
+    if runner.outcome(r) != 'ok' or not cases:
+        return
+    ctx.evaluations += 1
+    seen = batch.split_by_marks(r.events)
+    for i, (code, a, version) in enumerate(cases):
+        evs = seen.get(i, [])
+        ack = next((j for j, e in enumerate(evs) if e.get('e') == 'txm' and e['type'] == C('MSG_NODE_CHANGED_ACK') and bytes.fromhex(e['data']) == bytes([version])), None)
+        ci = next((j for j, e in enumerate(evs) if e.get('e') == 'call' and e.get('f') == 'bidib_ping'), None)
+        rv = next((e['r'] for e in evs if e.get('e') == 'ret' and e.get('f') == 'bidib_ping'), None)
+        ping = next((j for j, e in enumerate(evs) if e.get('e') == 'txm' and e['type'] == C('MSG_SYS_PING') and tuple(e['addr']) == a), None)
+        if ack is None or ci is None:
+            ctx.inconclusive.append('directed notice case without acknowledgement or call')
+            continue
+        ctx.count('directed_notice_cases')
+        if code == 'lost' and ping is not None and ping > ack:
+            ctx.violation('command-after-acknowledged-loss', 'ping', f'case {i}: the loss of the board at {a} was acknowledged (version {version}) and AFTER that a command for it was put on the wire '
+                          f'(bidib_ping returned {rv})', r.scenario, r.flavour, meta)
+            return
+        if code == 'new' and ack < ci and rv != 0:
+            ctx.violation('refused-after-acknowledged-login', 'ping', f'case {i}: the login of the board at {a} was acknowledged (version {version}) before bidib_ping was called, which returned {rv}', r.scenario, r.flavour, meta)
+            return
+        if ack < ci:
+            ctx.count('directed_calls_after_the_acknowledgement')
+    sweep.pause_stats(ctx, r.events, 'directed')
+    ctx.nontrivial.add(meta['digest'])
+
 def run(ctx):
     ctx.rule = ('generated trees (1-6 configured boards, ~half interfaces, nested up to three levels, 0-2 unknown nodes, ~25% of boards absent), optional node-table '
                 'change after the k-th row, then 0-30 node-lost / node-new notices (loss of interfaces with children, re-login at a different address, unknown '
@@ -259,5 +326,9 @@ def run(ctx):
     for j, r in zip(jobs, res):
         meta = {'digest': hashlib.sha1(j[0].encode()).hexdigest()[:12], 'nodes': [(list(a), u.hex()) for a, u in j[2]], 'tabchange': j[5]}
         evaluate(ctx, r, j[1], j[2], j[3], j[4], j[5], meta, j[6] if len(j) > 6 else None)
+    djobs = [gen_directed(ctx, k) for k in range(ctx.n(8, 200))]
+    dres = runner.run_many('asan', [(i, j[0]) for i, j in enumerate(djobs)], timeout=600)
+    for j, r in zip(djobs, dres):
+        eval_directed(ctx, r, j[1], {'digest': hashlib.sha1(j[0].encode()).hexdigest()[:12], 'kind': 'directed'})
     ctx.sample({'tree': [(list(a), u.hex()) for a, u in jobs[0][2]], 'notices': [(list(a), v, hex(t)) for a, v, t in jobs[0][3][:6]]})
     return ctx.finish(min_eval=50, min_nontrivial=20)
